@@ -10,6 +10,6 @@ require (
 	pgregory.net/rapid v1.3.0
 )
 
-require github.com/litao91/goldmark-mathjax v0.0.0-20210217064022-a43cf739a50f // indirect
+require github.com/litao91/goldmark-mathjax v0.0.0-20210217064022-a43cf739a50f
 
 replace github.com/zerx-lab/wordZero => /repo
